@@ -323,7 +323,8 @@ def run_shard(shard, tier, seed):
                     if not ok:
                         rep.violation("route/driver-route-after-open", f"LogixDriver on a {pers} controller: Unconnected Send with route_path=True carried route {[x['route'] for x in e]!r}, Forward Open routes {fo_routes!r}; the driver's route is {want_route!r} ({r!r:.80})",
                                       {"case": ("current-route", pers, rnd)})
-                    call(d.read, next(iter(d.tags)))
+                    if d.tags:
+                        call(d.read, next(iter(d.tags)))
         rep.sample({"helpers": ["get_module_info 0..16", "get_plc_name", "get_plc_info", "get/set_plc_time", "current route after open (Micro800)"]})
     if k not in ("routes", "helpers"):
         w.__exit__()
